@@ -34,6 +34,30 @@ impl<T: Types> codeq::EncSpec for WALRecord<T> {
 pub open spec fn mk_state<T: Types>(vote: Option<T::Vote>, last: Option<T::LogId>, committed: Option<T::LogId>, purged: Option<T::LogId>, user_data: Option<T::UserData>) -> RaftLogState<T> { RaftLogState { vote, last, committed, purged, user_data } }
 
 
+pub proof fn lemma_opt_small<T: Types>(s: RaftLogState<T>)
+    ensures s.vote.enc().len() <= 0x100_0000_0000_0000, s.last.enc().len() <= 0x100_0000_0000_0000, s.committed.enc().len() <= 0x100_0000_0000_0000,
+        s.purged.enc().len() <= 0x100_0000_0000_0000, s.user_data.enc().len() <= 0x100_0000_0000_0000, s.enc().len() < 0x600_0000_0000_0000,
+{
+    if let Some(v) = s.vote { T::law_vote_small(v); }
+    if let Some(v) = s.last { T::law_logid_small(v); }
+    if let Some(v) = s.committed { T::law_logid_small(v); }
+    if let Some(v) = s.purged { T::law_logid_small(v); }
+    if let Some(v) = s.user_data { T::law_userdata_small(v); }
+}
+pub proof fn lemma_fields_small<T: Types>(r: WALRecord<T>)
+    ensures rec_fields(r).len() < 0x600_0000_0000_0000
+{
+    match r {
+        WALRecord::SaveVote(v) => { T::law_vote_small(v); }
+        WALRecord::Append(l, p) => { T::law_logid_small(l); T::law_payload_small(p); }
+        WALRecord::Commit(l) => { T::law_logid_small(l); }
+        WALRecord::TruncateAfter(l) => { if let Some(v) = l { T::law_logid_small(v); } }
+        WALRecord::PurgeUpto(l) => { T::law_logid_small(l); }
+        WALRecord::State(s) => { lemma_opt_small::<T>(s); }
+    }
+}
+
+
 /// concatenated encodings of a sequence of records (what a chunk file holds)
 pub open spec fn concat_enc<T: Types>(rs: Seq<WALRecord<T>>) -> Seq<u8>
     decreases rs.len()
